@@ -41,6 +41,8 @@ ASSUMPTIONS = [
     "TZNAME is compared only when the observance carries one",
 ]
 
+HISTORY_CHECK = True   # last runs of every chunk are re-observed alone in a fresh interpreter
+
 TIERS = {
     "quick":    {"runs": 5000,  "chunk": 160,  "hash_seeds": [0], "max_steps": 16, "timeout": 900},
     "thorough": {"runs": 120000, "chunk": 2000, "max_wall": 2400, "hash_seeds": [0], "max_steps": 30, "timeout": 3400},
